@@ -256,6 +256,33 @@ def run(chk):
                 continue
             cases.append((45, [blocks.TY[kind], fmt, v, w]))
             meta.append((kind, fmt, desc, r1, r2, what))
+    # equality must follow the block's CURRENT content: compare, edit one side in place, compare again
+    for i in range(150 if chk.tier == "quick" else 2000):
+        kind = blocks.KINDS[i % len(blocks.KINDS)]
+        fmt, v = blocks.gen(kind, rng, big=4)
+        v = sanitize(kind, v)
+        w = sanitize(kind, blocks.perturb(kind, fmt, v, rng))
+        if w == v:
+            continue
+        a, b = blocks.build(kind, fmt, v), blocks.build(kind, fmt, copy.deepcopy(v))
+        first = compare(a, b)
+        blocks.warm(b)
+        try:
+            blocks.apply_inplace(kind, fmt, b, w)
+        except Exception as e:
+            raise RuntimeError("in-place edit failed for %s: %s" % (kind, common.exc_info(e)))
+        second = compare(a, b)
+        chk.note_case((kind, fmt, "edited in place after a comparison", i), True)
+        chk.count("pair: compared, edited in place, compared again")
+        what = {"kind": kind, "fmt": fmt, "a": v, "b_edited_in_place_to": w}
+        if first != (True, True) or second[0] is not False or second[1] is not False:
+            chk.violation("C14 %s fmt=%d: twins compare %r; after editing one of them in place to a different content they compare %r "
+                          "(expected (False, False))" % (kind, fmt, first, second), what, True)
+            if chk.n_found() >= 5:
+                return
+        else:
+            cases.append((45, [blocks.TY[kind], fmt, v, w]))
+            meta.append((kind, fmt, "a block edited in place to another content", False, False, what))
     mres = common.run_model_sharded(cases)
     for (kind, fmt, desc, r1, r2, what), m in zip(meta, mres):
         if m[0] != 0:
